@@ -7,7 +7,7 @@ whatever configuration `s` carries: it follows exactly the calls the interpreter
 computed by the interpreter itself) and checks, at each of them,
 
 * **(K1)** `sweepClear`: the deferred sweep at the end of an outermost emission (`k1`) finds no connected
-  *empty* slot to drop (in particular: no empty slot was ever connected — `connClear`);
+  *empty* slot to drop (in particular this holds when no empty slot is ever connected);
 * **(K2)** `clearEmit`: an *accumulated* emission does not start on a list that has an emission in progress.
 
 No proofs in this file.
@@ -209,7 +209,9 @@ def cOp : Nat → Prog → LSt → Op → Bool
 end
 
 /-- the instrumented run of the top-level operations: `true` iff every operation executed and every
-    emission started by `Spec.runTop fuel P s lines` satisfies `clearOp` / `clearEmit` -/
+    emission started by `Spec.runTop fuel P s lines` satisfies `clearEmit` (at its start) and `sweepClear` (at its
+    end).  Total (structural recursion on the fuel), executable; its cost is the cost of the run times
+    `O(nesting depth)` (the checked part of a call is not re-checked, only re-run once per level). -/
 def clearTop : Nat → Prog → LSt → List Line → Bool
   | _, _, _, [] => true
   | f, P, s, l :: ls =>
